@@ -742,6 +742,17 @@ def n_recv( ctx ):
             res.ok( src, hs[0], '%s: a socket error is reported as EOF (b\'\')' % name )
         else:
             res.bad( src, fn, '%s socket.error handling' % name, 'a dead connection must be reported as EOF (empty data) so that the receive loop terminates' )
+        # one socket receive per call: select reported the socket readable ONCE.  A second receive in the same call either blocks ( the timeout
+        # is spent ) or fails with EAGAIN - and the handler then reports EOF, throwing away the block the first receive delivered
+        CONN = fn.args.args[0].arg
+        rcv = [ c for c in ast.walk( fn ) if isinstance( c, ast.Call ) and isinstance( c.func, ast.Attribute ) and c.func.attr in ( 'recv', 'recvfrom', 'recv_into', 'recvmsg' )
+                and dotted( c.func.value ) == CONN ]
+        looped = [ c for c in rcv if any( isinstance( a, ( ast.For, ast.While )) for a in src.ancestors( c )) ]
+        if len( rcv ) == 1 and not looped:
+            res.ok( src, rcv[0], '%s: exactly one receive on the connection per call ( what select announced )' % name )
+        else:
+            res.bad( src, ( looped or rcv or [ fn ] )[0], '%s receives from the connection %s' % ( name, 'in a loop' if looped else '%d times' % len( rcv )),
+                     'select announced one readable event: a further receive in the same call blocks or fails, and the failure is reported as EOF - the octets already received are dropped and a complete request is not acted upon ( depends on where the stream was cut: a message of exactly the block size )' )
     rd = src.get( 'readable' )
     RM = Matcher()
     sel = RM.find( rd, '( _r, _w, _x ) = select.select( [ args[0].fileno() ], [], [], _rem )' )
@@ -1693,4 +1704,170 @@ def t_optext( ctx ):
         else:
             res.ok( src, call, '%r -> tag %r, offset %r, values %r' % ( text, got, goff, wval ))
     res.cells = len( _OPTEXT_CELLS )
+    return res
+
+
+# ---------------------------------------------------------------------------------------- C12: K-DETAILS / K-VALIDATE / T-FRAGTEXT
+
+@rule( 'K-DETAILS', props=( 'C12', ), floor=2 )
+def k_details( ctx ):
+    """proxy.read_details pairs every result with the details ( attribute, type, units ) of ITS operation: the packet index connector.operate
+    yields first ( one per EtherNet/IP request: every member of a Multiple Service Packet carries the same one ) is used for logging only.
+    proxy.parameter_substitution hands the text behind '=' on as it was written: the lower-casing and blank replacement are the parameter
+    NAME's - decided by value on three parameter texts."""
+    from .fold import run_block
+    res = Result( 'K-DETAILS' )
+    src = ctx.src( GETATTR )
+    fn = src.get( 'proxy.read_details' )
+    loops = [ l for l in ast.walk( fn ) if isinstance( l, ast.For ) and any( isinstance( c, ast.Call ) and isinstance( c.func, ast.Attribute ) and c.func.attr == 'operate' for c in ast.walk( l.iter )) ]
+    if len( loops ) != 1:
+        raise AnalysisError( 'proxy.read_details: the loop over connection.operate( ... ) not found' )
+    lp = loops[0]
+    # the packet index: the first element of the 6-tuple operate yields
+    tup = [ t for t in ast.walk( lp.target ) if isinstance( t, ast.Tuple ) and len( t.elts ) == 6 ]
+    if not tup or not isinstance( tup[0].elts[0], ast.Name ):
+        raise AnalysisError( 'proxy.read_details: the ( index, descr, request, reply, status, value ) target not found' )
+    IDX = tup[0].elts[0].id
+    uses = [ n for n in ast.walk( lp ) if isinstance( n, ast.Name ) and n.id == IDX and isinstance( n.ctx, ast.Load ) ]
+    stray = [ n for n in uses if not any( isinstance( a, ast.Call ) and ( call_name( a ) or '' ).split( '.' )[0] in ( 'log', 'logging' ) for a in src.ancestors( n )) ]
+    if stray:
+        res.bad( src, stray[0], 'proxy.read_details uses the packet index `%s` in `%s`' % ( IDX, norm_text( stmt_of( src, stray[0] ))),
+                 'the index connector.operate yields is the EtherNet/IP request\'s: with bundling every member of a Multiple Service Packet has the same one, so details looked up by it are those of another operation - a REAL attribute is decoded with the type declared for its neighbour ( wrong values and units, silently ), only when multiple > 0' )
+    else:
+        res.ok( src, lp, 'the packet index `%s` is used for logging only ( %d uses ): results are paired with their details one by one' % ( IDX, len( uses )))
+    # ---- parameter_substitution
+    ps = src.get( 'proxy.parameter_substitution' )
+    lps = [ l for l in ast.walk( ps ) if isinstance( l, ast.For ) and isinstance( l.target, ast.Name ) ]
+    if not lps:
+        raise AnalysisError( 'proxy.parameter_substitution: the loop over the texts not found' )
+    TAG = lps[0].target.id
+    strs = [ i for i in lps[0].body if isinstance( i, ast.If ) and 'isinstance' in txt( i.test ) and TAG in names_in( i.test ) ]
+    if not strs:
+        raise AnalysisError( 'proxy.parameter_substitution: the branch for texts not found' )
+    samples = (( 'Station Name = (SSTRING)"Pump House 7B"', ( '@9/1/1= (SSTRING)"Pump House 7B"', 'SSTRING' )),
+               ( 'station_name=3', ( '@9/1/1=3', 'SSTRING' )),
+               ( ' Station Name ', ( '@9/1/1', 'SSTRING' )),
+               ( 'Other=A=b', 'Other=A=b' ))
+    wrong = []
+    for text, want in samples:
+        env = { TAG: text, 'parameters': { 'station_name': ( '@9/1/1', 'SSTRING', 'name' ) }, 'pass_thru': True }
+        try:
+            out = run_block( strs[0].body, env, ignore_calls=( 'log', ))
+        except NoFold as exc:
+            raise AnalysisError( 'proxy.parameter_substitution: the text branch is not a decision fragment: %s' % exc )
+        got = env[TAG]
+        res.cells += 1
+        norm = lambda g: ( g[0].replace( '= ', '=' ), g[1] ) if isinstance( g, tuple ) and len( g ) == 2 and isinstance( g[0], str ) else g
+        if norm( got ) != norm( want ):
+            wrong.append(( text, got, want ))
+    if wrong:
+        text, got, want = wrong[0]
+        res.bad( src, strs[0], 'proxy.parameter_substitution( %r ) hands on %r, spelled %r' % ( text, got, want ),
+                 'the value behind "=" belongs to the user: it is handed to parse_operations as written ( only the parameter name is matched case-insensitively ) - a string written through a named parameter arrives in lower case' )
+    else:
+        res.ok( src, strs[0], 'a named parameter is replaced by its address; the text behind "=" is handed on as written ( %d texts )' % len( samples ))
+    return res
+
+
+@rule( 'K-READVAL', props=( 'C12', ), floor=1 )
+def k_readval( ctx ):
+    """connector.validate ( used when printing / validating is asked for ) re-yields what it was given: behind the summary line, the value of
+    a read is the one harvested whatever the status ( 0x06 = partial data is data ) and the value of an acknowledged write stays - decided by
+    value on status x kind of reply ( the refused write is K-VALIDATE's )."""
+    from .fold import run_block
+    res = Result( 'K-READVAL' )
+    src = ctx.src( CLIENT )
+    fn = src.get( 'connector.validate' )
+    lps = [ l for l in fn.body if isinstance( l, ast.For ) ]
+    if len( lps ) != 1:
+        raise AnalysisError( 'connector.validate: the loop over the harvested records not found' )
+    lp = lps[0]
+    tup = lp.target
+    if not ( isinstance( tup, ast.Tuple ) and len( tup.elts ) == 6 and all( isinstance( e, ast.Name ) for e in tup.elts )):
+        raise AnalysisError( 'connector.validate: the 6-tuple target not found' )
+    INDEX, DESCR, REQ, RPY, STS, VAL = [ e.id for e in tup.elts ]
+    tries = [ k for k, st in enumerate( lp.body ) if isinstance( st, ast.Try ) ]
+    if not tries:
+        raise AnalysisError( 'connector.validate: the try block computing the line not found' )
+    tail = lp.body[tries[-1] + 1:]
+    wrong = []
+    for kind in ( 'read_frag', 'read_tag', 'write_frag', 'write_tag', 'get_attribute_single' ):
+        for status in ( 0, 6, 8 ):
+            write = kind.startswith( 'write' )
+            given = [ 1, 2 ] if write else ( [ 7, 8 ] if status in ( 0, 6 ) or True else None )
+            env = { INDEX: 0, DESCR: 'd', REQ: {}, RPY: { 'status': status, kind: {} }, STS: status, VAL: given,
+                    'tag': 'T', 'act': '==', 'res': 'OK', 'elm': None, 'cnt': 2, 'off': 0, 'printing': False }
+            try:
+                out = run_block( tail, env, ignore_calls=( 'log', 'print' ))
+            except NoFold as exc:
+                raise AnalysisError( 'connector.validate: the statements behind the summary line are not a decision fragment: %s' % exc )
+            if out.kind != 'yield' or not isinstance( out.value, tuple ) or len( out.value ) != 6:
+                raise AnalysisError( 'connector.validate: the record re-yielded not found ( %r )' % ( out, ))
+            if write and status:
+                continue						# K-VALIDATE
+            want = given
+            res.cells += 1
+            if out.value[5] != want:
+                wrong.append(( kind, status, out.value[5], want ))
+    if wrong:
+        kind, status, got, want = wrong[0]
+        res.bad( src, tail[-1], 'connector.validate re-yields value %r for a %s reply with status 0x%02x, specified %r ( %d of %d cells differ )' % ( got, kind, status, want, len( wrong ), res.cells ),
+                 'the result of an operation must not depend on whether a summary was asked for: a read answered with 0x06 ( more data follows ) carries valid data, which is dropped with printing / validating and delivered without' )
+    else:
+        res.ok( src, tail[-1], 'behind the summary line the value of a read ( any status ) and of an acknowledged write is re-yielded as it is ( %d cells of kind x status )' % res.cells )
+    return res
+
+
+@rule( 'T-FRAGTEXT', props=( 'C12', ), floor=2 )
+def t_fragtext( ctx ):
+    """parse_operations( fragment=True ) refuses a write whose text names no element range ( "Fragmented write must specify exact size and
+    destination element range" ): whether it does is found by value; while it does, no caller that parses the user's operation texts may
+    hand a fragment flag on - the same texts would be accepted without --fragment and refused with it."""
+    from .fold import run_block
+    res = Result( 'T-FRAGTEXT' )
+    src = ctx.src( CLIENT )
+    fn = src.get( 'parse_operations' )
+    FRAG = 'fragment'
+    if FRAG not in [ a.arg for a in fn.args.args ]:
+        res.ok( src, fn, 'parse_operations has no fragment mode' )
+        return res
+    ifs = [ i for i in ast.walk( fn ) if isinstance( i, ast.If ) and FRAG in names_in( i.test ) and any( isinstance( a, ast.Assert ) for a in ast.walk( i )) ]
+    if not ifs:
+        raise AnalysisError( 'parse_operations: the fragment / non-fragment write check not found' )
+    OPR = None
+    for n in ast.walk( ifs[0].test ):
+        if isinstance( n, ast.Compare ) and isinstance( n.comparators[0], ast.Name ):
+            OPR = n.comparators[0].id
+    if OPR is None:
+        raise AnalysisError( 'parse_operations: the operation dict of the write check not found' )
+    def cell( frag, opr ):
+        env = { FRAG: frag, OPR: dict( opr ), 'size': 4, 'tag': 'T', 'val': '1', 'cast': int }
+        try:
+            return run_block( [ ifs[0] ], env, ignore_calls=( 'log', )).kind
+        except NoFold as exc:
+            raise AnalysisError( 'parse_operations: the write check is not a decision fragment: %s' % exc )
+    plain = cell( False, { 'data': [ 1 ] } )
+    fragd = cell( True, { 'data': [ 1 ] } )
+    res.cells += 2
+    if plain != 'fall':
+        res.bad( src, ifs[0], 'parse_operations refuses the plain write TAG=1 ( %s )' % plain, 'a write without a range is a write of as many elements as values' )
+    refuses = fragd == 'raise'
+    res.ok( src, ifs[0], 'parse_operations( fragment=%s ): a write naming no range is %s' % ( 'True', 'refused' if refuses else 'accepted' ), nontrivial=False )
+    n = 0
+    for rel in ( CLIENT, GETATTR, POLL, 'server/enip/thruput.py', 'server/enip/io_example.py', 'server/enip/open_example.py' ):
+        if not ctx.model.exists( rel ):
+            continue
+        s2 = ctx.src( rel )
+        for c in ast.walk( s2.tree ):
+            if isinstance( c, ast.Call ) and ( call_name( c ) or '' ).split( '.' )[-1] == 'parse_operations':
+                n += 1
+                kw = [ k for k in c.keywords if k.arg == FRAG ]
+                passes = kw and try_fold( kw[0].value, default='?' ) not in ( False, None, 0 )
+                if passes and refuses:
+                    res.bad( s2, c, '%s hands fragment=%s to parse_operations' % ( rel, norm_text( kw[0].value )),
+                             'with the flag set parse_operations refuses every write that names no element range ( TAG=1, TAG[3]=5 ): the same command line works without --fragment and dies with it' )
+                else:
+                    res.ok( s2, c, '%s: parse_operations parses the texts the same way whatever --fragment says' % rel )
+    if n < 4:
+        raise AnalysisError( 'callers of parse_operations not found ( %d )' % n )
     return res
